@@ -102,6 +102,7 @@ type Amount struct {
 	Skip, Take int
 	Last       int
 	Zeros      int // leading zeros in the spelling of every number (the value is decimal all the same)
+	Sep        string // what stands between `skip s` and `take t` instead of one blank (comments, line breaks)
 }
 
 // Num spells n in decimal with the given number of leading zeros.
@@ -114,7 +115,11 @@ func (a Amount) String() string {
 	case "skip":
 		return "skip " + Num(a.Skip, a.Zeros)
 	case "skiptake":
-		return "skip " + Num(a.Skip, a.Zeros) + " take " + Num(a.Take, a.Zeros)
+		sep := " "
+		if a.Sep != "" {
+			sep = a.Sep
+		}
+		return "skip " + Num(a.Skip, a.Zeros) + sep + "take " + Num(a.Take, a.Zeros)
 	case "take":
 		return "take " + Num(a.Take, a.Zeros)
 	case "top":
@@ -126,8 +131,9 @@ func (a Amount) String() string {
 }
 
 type WithItem struct {
-	Kind string // "str" "var"
-	S    string
+	Kind     string // "str" "var"
+	S        string
+	Caseless bool // a string written `caseless '..'` (accepted by the parser; the modifier means nothing in a replacement)
 }
 
 type Command struct {
@@ -369,6 +375,9 @@ func RenderCommand(c Command) string {
 		for _, w := range c.With {
 			sb.WriteString(" ")
 			if w.Kind == "str" {
+				if w.Caseless {
+					sb.WriteString("caseless ")
+				}
 				sb.WriteString(Quote(w.S))
 			} else {
 				sb.WriteString(w.S)
